@@ -43,6 +43,9 @@ const EVT_MESSAGE: Token = Token(0);
 const EVT_STATUS_UPDATE: Token = Token(1);
 const EVT_HEALTH_CHECK: Token = Token(2);
 
+// Most batches answered by one call to process_events() before it returns to its caller
+const MAX_BATCHES_PER_CALL: usize = 64;
+
 // Canned response to health check request
 const HTTP_RESPONSE: &str = "HTTP/1.1 200 OK\nContent-Length: 0\nConnection: close\n\n";
 
@@ -67,6 +70,9 @@ pub struct Server {
     buf: [u8; 65_536],
     thread_name: String,
     srv_value: Vec<u8>,
+
+    // True if process_events() returned before the socket was empty
+    socket_backlog: bool,
 
     stats_pub_freq: Duration,
     stats_pub_timer: Timer<()>,
@@ -151,6 +157,7 @@ impl Server {
             buf: [0u8; 65_536],
             thread_name,
             srv_value,
+            socket_backlog: false,
             stats_pub_freq: stats_freq,
             stats_pub_timer: timer,
             stats_recorder: stats,
@@ -196,30 +203,58 @@ impl Server {
     /// called repeatedly in a loop to process requests.
     ///
     pub fn process_events(&mut self, events: &mut Events) {
+        // If the previous call stopped draining the socket early there may be requests queued
+        // for which no new readiness event will arrive (the socket is registered edge-triggered),
+        // so don't wait for one.
+        let timeout = if self.socket_backlog {
+            Some(Duration::from_millis(0))
+        } else {
+            self.poll_duration
+        };
+
         self.poll
-            .poll(events, self.poll_duration)
+            .poll(events, timeout)
             .expect("server event poll failed; cannot recover");
+
+        let mut socket_drained = false;
 
         for msg in events.iter() {
             match msg.token() {
-                EVT_MESSAGE => loop {
-                    self.responder_ietf.reset();
-                    self.responder_classic.reset();
-
-                    let socket_now_empty = self.collect_requests();
-
-                    self.responder_ietf.send_responses(&mut self.socket, &mut self.stats_recorder);
-                    self.responder_classic.send_responses(&mut self.socket, &mut self.stats_recorder);
-
-                    if socket_now_empty {
-                        break;
-                    }
-                },
+                EVT_MESSAGE => {
+                    self.process_requests();
+                    socket_drained = true;
+                }
                 EVT_HEALTH_CHECK => self.handle_health_check(),
                 EVT_STATUS_UPDATE => self.send_client_stats(),
                 _ => unreachable!(),
             }
         }
+
+        if self.socket_backlog && !socket_drained {
+            self.process_requests();
+        }
+    }
+
+    // Answer queued requests batch by batch until the socket is empty, but for at most
+    // MAX_BATCHES_PER_CALL batches: under sustained load the socket never becomes empty, and the
+    // caller of `process_events()` must regain control (e.g. to notice a shutdown request).
+    fn process_requests(&mut self) {
+        for _ in 0..MAX_BATCHES_PER_CALL {
+            self.responder_ietf.reset();
+            self.responder_classic.reset();
+
+            let socket_now_empty = self.collect_requests();
+
+            self.responder_ietf.send_responses(&mut self.socket, &mut self.stats_recorder);
+            self.responder_classic.send_responses(&mut self.socket, &mut self.stats_recorder);
+
+            if socket_now_empty {
+                self.socket_backlog = false;
+                return;
+            }
+        }
+
+        self.socket_backlog = true;
     }
 
     // Read and process client requests from socket until socket is empty or 'batch_size' number
